@@ -60,10 +60,26 @@ def check(c):
         norm(e) for e in un[0].targets[0].elts] == ['key', 'value'],
         c.where(ld.node, ld), '')
     gt = c.func('templatevars', 'get_template_vars_from_db')
+    # the row callback stores row[0] -> eval_var(row[1]): a lambda calling
+    # __setitem__, or a local function with the item assignment
     lam = [n for n in c.idx.walk(gt.node) if isinstance(n, ast.Lambda)]
     ok = any(norm(x.body) ==
              'template_vars.__setitem__(row[0], eval_var(row[1]))'
              for x in lam)
+    for fn in [n for n in c.idx.walk(gt.node) if isinstance(
+            n, ast.FunctionDef) and n is not gt.node]:
+        used = any(isinstance(x, ast.Call) and norm(x.func).endswith(
+            'select_workflow_template_vars') and any(
+            norm(a) == fn.name for a in x.args)
+            for x in c.idx.walk(gt.node))
+        rowv = fn.args.args[-1].arg if fn.args.args else None
+        body = [s for s in fn.body if not (isinstance(s, ast.Expr) and
+                                           isinstance(s.value, ast.Constant))]
+        if used and rowv and len(body) == 1 and isinstance(
+                body[0], ast.Assign) and norm(body[0].targets[0]) == \
+                f'template_vars[{rowv}[0]]' and norm(body[0].value) == \
+                f'eval_var({rowv}[1])':
+            ok = True
     c.ob('C37.codec', f'{gt.fq} :: row[0] -> eval_var(row[1])', ok,
          c.where(gt.node, gt), '')
     # column agreement
